@@ -969,12 +969,35 @@ func (o *Once) Do(f func()) {
 func Go(f func()) {
 	s := gated()
 	if s == nil || s.cur == nil {
-		go f()
+		// outside a simulation (the harness's set-up requests): a plain
+		// goroutine, which WaitStrays lets finish before the simulation
+		// starts - one that took a real lock before and releases a simulated
+		// one after would find it unlocked
+		strays.Add(1)
+		go func() {
+			defer strays.Done()
+			f()
+		}()
 		return
 	}
 	t := s.Spawn("go", f)
 	_ = t
 	s.point(KIO, "go")
+}
+
+var strays sync.WaitGroup
+
+// WaitStrays waits (up to d) for the goroutines the code under test started
+// outside a simulation.
+func WaitStrays(d time.Duration) bool {
+	done := make(chan struct{})
+	go func() { strays.Wait(); close(done) }()
+	select {
+	case <-done:
+		return true
+	case <-time.After(d):
+		return false
+	}
 }
 
 // ---------------------------------------------------------------- bolt
